@@ -85,7 +85,7 @@ def run(tier, seed, model):
     camp = common.Campaign()
     rng = random.Random(seed * 7919 + 13)
     n = 700 if tier == "quick" else 20000
-    batch = Batch(model)
+    batch = Batch(model, camp, "C13")
     blocks = [f.block() for f in rfbgen.ACCEPTED + rfbgen.UNACCEPTED]
     for i in range(n):
         r0 = rng.random()
